@@ -16,7 +16,7 @@ extract: proofs
 	cd ocaml && timeout 600 coqc -Q ../coq Sftp ../coq/Extract/Extract.v >/dev/null && rm -f model.mli
 
 driver: extract
-	cd ocaml && ocamlfind ocamlopt -O3 -w -a model.ml conv.ml drv_mode.ml drv_wire.ml drv_client.ml drv_srv.ml drv_xfer.ml drv_req.ml drv_trace.ml $(DRV_EXTRA) driver.ml -o driver
+	cd ocaml && ocamlfind ocamlopt -O3 -w -a model.ml conv.ml drv_mode.ml drv_wire.ml drv_client.ml drv_srv.ml drv_xfer.ml drv_req.ml drv_trace.ml drv_fs.ml $(DRV_EXTRA) driver.ml -o driver
 
 clean:
 	cd $(COQDIR) && [ -f Makefile.coq ] && $(MAKE) -f Makefile.coq clean; rm -f $(COQDIR)/Makefile.coq* $(COQDIR)/build.log
